@@ -241,6 +241,32 @@ func run(c *hx.Ctx, t tc) {
 	}
 }
 
+// runQuiet: kinds 0 (MessageKey) and 2 (MessageKeyV1) under the specification oracle only (no Coq case).
+func runQuiet(c *hx.Ctx, t tc) {
+	c.Obs.Evaluations++
+	var key crypto.Key
+	copy(key[:], t.Key)
+	p, pv := hx.Recover(func() {
+		switch t.Kind {
+		case 0:
+			got := crypto.MessageKey(key, t.Plain, side(t.Side))
+			c.Count("MessageKey(length sweep)")
+			if want := specMsgKey(t.Key, t.Plain, xOf(t.Side)); !bytes.Equal(got[:], want) {
+				c.Violate("kdf-differs-from-spec:msg_key", fmt.Sprintf("msg_key differs from the specification (side %d, plaintext %d bytes): got %x want %x", t.Side, len(t.Plain), got[:], want), -1, 0, t)
+			}
+		case 2:
+			got := crypto.MessageKeyV1(t.Plain)
+			c.Count("MessageKeyV1(length sweep)")
+			if want := specMsgKeyV1(t.Plain); !bytes.Equal(got[:], want) {
+				c.Violate("kdf-differs-from-spec:msg_key_v1", fmt.Sprintf("msg_key_v1 differs from the specification (plaintext %d bytes): got %x want %x", len(t.Plain), got[:], want), -1, 0, t)
+			}
+		}
+	})
+	if p {
+		c.Violate("kdf-panic", fmt.Sprintf("panicked: %v", pv), -1, 0, t)
+	}
+}
+
 func genKey(r *hx.Rand) []byte {
 	switch r.Intn(8) {
 	case 0:
@@ -311,12 +337,35 @@ func main() {
 		}
 		run(c, tc{Kind: 6, Key: k, KeyID: id[:], Rnd: r.Bytes(24 + r.Intn(3)), MsgID: b64(r), Inner: []int64{b64(r), b64(r), b64(r), b64(r), exp}})
 	}
+	// every plaintext length across the block / buffer-size boundaries, both directions, against the
+	// specification transcription only (Go oracle; a sample of them also goes to Coq below)
+	sweepKey := genKey(r)
+	long := r.Bytes(70000)
+	var lens []int
+	for n := 0; n <= 2200; n++ {
+		lens = append(lens, n)
+	}
+	for _, b := range []int{4096, 8192, 16384, 32768, 65536} {
+		lens = append(lens, b-33, b-32, b-31, b-1, b, b+1, b+31, b+32, b+33)
+	}
+	for _, n := range lens {
+		for sd := 0; sd < 2; sd++ {
+			runQuiet(c, tc{Kind: 0, Key: sweepKey, Plain: long[:n], Side: sd})
+		}
+		if n <= 700 {
+			runQuiet(c, tc{Kind: 2, Plain: long[:n]})
+		}
+	}
+	// lengths around powers of two and hash-block multiples also through Coq (model and Coq specification)
+	for _, n := range []int{55, 56, 64, 119, 120, 128, 192, 208, 224, 240, 256, 272, 288, 512} {
+		run(c, tc{Kind: 0, Key: genKey(r), Plain: r.Bytes(n), Side: r.Intn(2)})
+	}
 	// bind error paths: zero key, short random
 	run(c, tc{Kind: 6, Key: make([]byte, 256), KeyID: make([]byte, 8), Rnd: r.Bytes(24), MsgID: 5, Inner: []int64{1, 2, 3, 4, 5}})
 	run(c, tc{Kind: 6, Key: make([]byte, 256), KeyID: []byte{0, 0, 0, 0, 0, 0, 0, 1}, Rnd: r.Bytes(24), MsgID: 5, Inner: []int64{1, 2, 3, 4, 5}})
 	for _, l := range []int{0, 15, 16, 23} {
 		run(c, tc{Kind: 6, Key: genKey(r), KeyID: r.Bytes(8), Rnd: r.Bytes(l), MsgID: 5, Inner: []int64{1, 2, 3, 4, 5}})
 	}
-	c.Obs.Rule = "each exported derivation function of crypto/keys.go, kdf_v1.go, keys_old.go, key.go (ID) and EncryptBindMessage on random/structured 2048-bit keys, both directions, plaintexts 0..176 bytes; oracle = a transcription of the specification formulas in Go (substr/+) and a specification-side decryption of the bind message; every case is also evaluated in Coq against both the Go-shaped model and the Coq transcription of the specification; non-trivial = distinct (function, direction, input) case"
+	c.Obs.Rule = "each exported derivation function of crypto/keys.go, kdf_v1.go, keys_old.go, key.go (ID) and EncryptBindMessage on random/structured 2048-bit keys, both directions, plaintexts 0..176 bytes plus lengths around hash-block multiples up to 512 through Coq, and EVERY plaintext length 0..2200 and +-33 around 4096..65536 (both directions) under the Go specification oracle; oracle = a transcription of the specification formulas in Go (substr/+) and a specification-side decryption of the bind message; every case is also evaluated in Coq against both the Go-shaped model and the Coq transcription of the specification; non-trivial = distinct (function, direction, input) case"
 	c.Finish()
 }
